@@ -12,6 +12,8 @@ a proof as well as the correspondence.
   h2DecodeGuard          read_headers maps UnicodeDecodeError to WebSocketException     (F8)
   h2StatusGuard          read_headers maps IndexError/ValueError of the status line     (F8)
   h2LocationGuard        connect() does not index headers["location"] unguarded         (F8)
+  h2LocationParseGuard   connect() validates the redirect target with parse_url and maps its
+                         ValueError to WebSocketException                               (F8)
   h2ContentLengthGuard   _get_resp_headers guards int(Content-Length)                   (F8)
   h2BodyReadCap          upper bound of the error-body recv (0 = the peer's number)     (F8)
   h2HeadRecvSize         the size recv_line asks the transport for (1)
@@ -131,6 +133,12 @@ def extend(repo, T, ex):
         T["h2LocationGuard"] = True
     else:
         raise ex.ExtractError("connect: redirect target lookup not recognised")
+
+    # ---- redirect target validated before it is dialled (ValueError of parse_url mapped)
+    def is_parse_url(n):
+        return isinstance(n, ast.Call) and getattr(n.func, "id", "") == "parse_url"
+    g = _guarded(loop, is_parse_url, ["ValueError"])
+    T["h2LocationParseGuard"] = bool(g)
 
     # ---- F7
     hs = ex._parse(repo, "_handshake.py")
